@@ -30,6 +30,8 @@ pub fn bvhow_strategy(positions_weight: u32) -> BoxedStrategy<BvHow> {
         positions_weight => Just(BvHow::PosU32),
         positions_weight => Just(BvHow::PosU64),
         positions_weight => Just(BvHow::PosI64),
+        1 => Just(BvHow::ZerosThenPush),
+        1 => Just(BvHow::PosDup),
     ]
     .boxed()
 }
